@@ -341,7 +341,7 @@ def translated_vs_python(run: lib.Run) -> tuple[bool, str]:
                 probe: dict = {}
                 run_real(cond, env, (lambda n, s, r_, o: True) if behave is None else behave, probe, False)
                 if memo_kind == "miss":
-                    memo = {(k_[0], k_[1] + "x", k_[2], k_[3]): True for k_ in probe} | {("a", "b", "c", ""): False}
+                    memo = {(k_[0], str(k_[1]) + "x") + tuple(k_[2:]): True for k_ in probe} | {("a", "b", "c", ""): False}
                 else:
                     pick = {"hit": lambda v: v, "hit-falsy": lambda v: [0, None, "", []][len(str(v)) % 4], "hit-truthy": lambda v: [1, "no", [0]][len(str(v)) % 3]}[memo_kind]
                     memo = {("z", "z", "z", "z"): True} | {k_: pick(v_) for k_, v_ in probe.items()}
